@@ -339,6 +339,15 @@ func (r *TypeSettingsRegistry) GetByValue(objValue reflect.Value, optTS ...TypeS
 	defer r.registryMutex.RUnlock()
 
 	for {
+		// a nil pointer or nil interface was resolved, there are no type settings to look up
+		if !objValue.IsValid() {
+			if len(optTS) > 0 {
+				return optTS[0]
+			}
+
+			return TypeSettings{}
+		}
+
 		if ts, ok := r.registry.Get(objValue.Type()); ok {
 			if len(optTS) > 0 {
 				return optTS[0].merge(ts)
